@@ -239,8 +239,18 @@ def rule_sites(c, prog, full=True):
     # what happens when perform fails (sibling comparison, reported as a table)
     table = {k: " / ".join(sorted(v[1]["err"])) or "(no failing path found)" for k, v in results.items()}
     c.sample({"rule": R, "perform_error_handling_by_site": table})
+    # (the key spells the four behaviours out, so that a site that changes what it does on failure is a new violation
+    # and not the recorded one)
+    abbr = {"stores nothing (drops / skips the property)": "drop", "stores the unmigrated value": "keep-legacy", "hard error (returns Err)": "error", "(no failing path found)": "none"}
+    sig = ",".join(f"{k}={'+'.join(sorted(abbr.get(x, x) for x in results[k][1]['err']) or ['none'])}" for k in sorted(results))
+    for label in ("binary-reader", "xml-reader"):
+        if label in results and results[label][1].get("legacy_store_on_err"):
+            f_, r_ = results[label]
+            c.violation(R, f"{label}|legacy-name-stored", f"{core.short(f_.path)}: when the migration fails the value is stored under the legacy name: the legacy name appears in the decoded DOM (the other reader and both writers never produce it)", f_.sp, instance=f"{label}:legacy-name-never-stored")
+        elif label in results:
+            c.ok(R, f"{label}:legacy-name-never-stored")
     if len(table) == 4 and len(set(table.values())) > 1:
-        c.violation(R, "err-handling|differs", f"the four sites treat a failed migration differently: {table}; together with an unmigratable legacy value this makes the result depend on the path (e.g. decodes from binary, errors from XML)", "", instance="err-handling")
+        c.violation(R, "err-handling|differs|" + sig, f"the four sites treat a failed migration differently: {table}; together with an unmigratable legacy value this makes the result depend on the path (e.g. decodes from binary, errors from XML)", "", instance="err-handling")
     elif len(table) == 4:
         c.ok(R, "err-handling")
 
